@@ -113,6 +113,8 @@ fn dup(v: &V) -> V {
                 Val::Array(smallvec![a[0], a[1]])
             } else if a.len() == 3 {
                 Val::Array(smallvec![a[0], a[1], a[2]])
+            } else if a.len() == 4 {
+                Val::Array(smallvec![a[0], a[1], a[2], a[3]])
             } else {
                 Val::Array(smallvec![])
             }
@@ -552,7 +554,8 @@ fn arr(len: usize) -> V {
         0 => Val::Array(smallvec![]),
         1 => Val::Array(smallvec![kani::any::<f64>()]),
         2 => Val::Array(smallvec![kani::any::<f64>(), kani::any::<f64>()]),
-        _ => Val::Array(smallvec![kani::any::<f64>(), kani::any::<f64>(), kani::any::<f64>()]),
+        3 => Val::Array(smallvec![kani::any::<f64>(), kani::any::<f64>(), kani::any::<f64>()]),
+        _ => Val::Array(smallvec![kani::any::<f64>(), kani::any::<f64>(), kani::any::<f64>(), kani::any::<f64>()]),
     }
 }
 
@@ -561,6 +564,11 @@ pub fn check_bin_array(idx: usize, name: &str, op: B) {
     let ops = ValOpsFactory::<i32, f64>::make();
     assert!(ops[idx].repr() == name);
     let f = ops[idx].bin().unwrap().apply;
+    check_bin_array_direct(f, op);
+    core::mem::forget(ops);
+}
+
+pub fn check_bin_array_direct(f: fn(V, V) -> V, op: B) {
     let la: usize = kani::any();
     kani::assume(la <= 2);
     let a = arr(la);
@@ -612,7 +620,7 @@ pub fn check_bin_array(idx: usize, name: &str, op: B) {
     let r3 = f(dup(&a), Val::Error(ExError::new("e")));
     assert!(is_err(&r3));
     kani::cover!(la == 2 && scalar_kind == 0, "two elements with an Int scalar reached");
-    core::mem::forget((ops, a, b, s, r1, r2, r3));
+    core::mem::forget((a, b, s, r1, r2, r3));
 }
 
 /// dot product on arrays of length 0..=3
@@ -620,9 +628,15 @@ pub fn check_dot() {
     let ops = ValOpsFactory::<i32, f64>::make();
     assert!(ops[IDX_BIN_DOT].repr() == "dot");
     let dot = ops[IDX_BIN_DOT].bin().unwrap().apply;
+    check_dot_direct(dot);
+    core::mem::forget(ops);
+}
+
+/// dot product on arrays of length 0..=4 each (all 25 length pairs)
+pub fn check_dot_direct(dot: fn(V, V) -> V) {
     let la: usize = kani::any();
     let lb: usize = kani::any();
-    kani::assume(la <= 3 && lb <= 3);
+    kani::assume(la <= 4 && lb <= 4);
     let a = arr(la);
     let b = arr(lb);
     let (Val::Array(av), Val::Array(bv)) = (&a, &b) else { unreachable!() };
@@ -640,7 +654,7 @@ pub fn check_dot() {
     }
     assert!(is_err(&dot(dup(&a), Val::Error(ExError::new("e")))), "error operand must give an error result");
     kani::cover!(la == 2 && lb == 2, "two 2-vectors reached");
-    core::mem::forget((ops, a, b, d));
+    core::mem::forget((a, b, d));
 }
 
 /// cross product and component access
@@ -649,13 +663,20 @@ pub fn check_cross_comp() {
     assert!(ops[IDX_BIN_CROSS].repr() == "cross" && ops[IDX_BIN_COMP].repr() == ".");
     let cross = ops[IDX_BIN_CROSS].bin().unwrap().apply;
     let comp = ops[IDX_BIN_COMP].bin().unwrap().apply;
+    check_cross_comp_direct(cross, comp);
+    core::mem::forget(ops);
+}
+
+/// cross product on every pair of lengths 0..=4 (defined for 3 x 3 only), component access on lengths 0..=4 with every index
+pub fn check_cross_comp_direct(cross: fn(V, V) -> V, comp: fn(V, V) -> V) {
     let la: usize = kani::any();
-    kani::assume(la >= 2 && la <= 3);
+    let lb: usize = kani::any();
+    kani::assume(la <= 4 && lb <= 4);
     let a = arr(la);
-    let b = arr(3);
+    let b = arr(lb);
     let (Val::Array(av), Val::Array(bv)) = (&a, &b) else { unreachable!() };
     let c = cross(dup(&a), dup(&b));
-    if la == 3 {
+    if la == 3 && lb == 3 {
         let expect: V = Val::Array(smallvec![av[1] * bv[2] - av[2] * bv[1], av[2] * bv[0] - av[0] * bv[2], av[0] * bv[1] - av[1] * bv[0]]);
         assert!(same(&c, &expect), "result violates the documented typing/error rule");
     } else {
@@ -670,9 +691,88 @@ pub fn check_cross_comp() {
     }
     assert!(is_err(&comp(dup(&a), Val::Float(kani::any()))), "result violates the documented typing/error rule");
     assert!(is_err(&cross(Val::Error(ExError::new("e")), dup(&b))), "error operand must give an error result");
-    kani::cover!(la == 3, "cross product of two 3-vectors reached");
+    kani::cover!(la == 3 && lb == 3, "cross product of two 3-vectors reached");
     kani::cover!(la == 2 && i == 1, "valid component reached");
-    core::mem::forget((ops, a, b, c, e));
+    core::mem::forget((a, b, c, e));
+}
+
+/// cross product over all 9 pairs of CONCRETE lengths 0, 2, 3 (symbolic elements): defined for 3 x 3 only, an error
+/// value (never a panic) for every other pair. Concrete lengths keep the SmallVec code out of the solver.
+pub fn check_cross_lengths_direct(cross: fn(V, V) -> V) {
+    const L: [usize; 3] = [0, 2, 3];
+    let mut ia = 0;
+    while ia < 3 {
+        let mut ib = 0;
+        while ib < 3 {
+            let (la, lb) = (L[ia], L[ib]);
+            let a = arr(la);
+            let b = arr(lb);
+            let c = cross(dup(&a), dup(&b));
+            if la == 3 && lb == 3 {
+                let (Val::Array(av), Val::Array(bv)) = (&a, &b) else { unreachable!() };
+                let expect: V = Val::Array(smallvec![av[1] * bv[2] - av[2] * bv[1], av[2] * bv[0] - av[0] * bv[2], av[0] * bv[1] - av[1] * bv[0]]);
+                assert!(same(&c, &expect), "result violates the documented typing/error rule");
+            } else {
+                assert!(is_err(&c), "result violates the documented typing/error rule");
+            }
+            core::mem::forget((a, b, c));
+            ib += 1;
+        }
+        ia += 1;
+    }
+    kani::cover!(true, "all 9 length pairs executed");
+}
+
+/// dot product over all 9 pairs of concrete lengths 0, 2, 3
+pub fn check_dot_lengths_direct(dot: fn(V, V) -> V) {
+    const L: [usize; 3] = [0, 2, 3];
+    let mut ia = 0;
+    while ia < 3 {
+        let mut ib = 0;
+        while ib < 3 {
+            let (la, lb) = (L[ia], L[ib]);
+            let a = arr(la);
+            let b = arr(lb);
+            let d = dot(dup(&a), dup(&b));
+            if la != lb {
+                assert!(is_err(&d), "result violates the documented typing/error rule");
+            } else {
+                let (Val::Array(av), Val::Array(bv)) = (&a, &b) else { unreachable!() };
+                let mut acc = 0.0;
+                let mut i = 0;
+                while i < la {
+                    acc = acc + av[i] * bv[i];
+                    i += 1;
+                }
+                assert!(same(&d, &Val::Float(acc)), "result violates the documented typing/error rule");
+            }
+            core::mem::forget((a, b, d));
+            ib += 1;
+        }
+        ia += 1;
+    }
+    kani::cover!(true, "all 9 length pairs executed");
+}
+
+/// component access on concrete lengths 0..=4 with every i32 index, a Float index and an error operand
+pub fn check_comp_lengths_direct(comp: fn(V, V) -> V) {
+    let mut la = 0;
+    while la <= 4 {
+        let a = arr(la);
+        let Val::Array(av) = &a else { unreachable!() };
+        let i: i32 = kani::any();
+        let e = comp(dup(&a), Val::Int(i));
+        if i >= 0 && (i as usize) < la {
+            assert!(same(&e, &Val::Float(av[i as usize])), "result violates the documented typing/error rule");
+        } else {
+            assert!(is_err(&e), "result violates the documented typing/error rule");
+        }
+        let e2 = comp(dup(&a), Val::Float(kani::any()));
+        assert!(is_err(&e2), "result violates the documented typing/error rule");
+        core::mem::forget((a, e, e2));
+        la += 1;
+    }
+    kani::cover!(true, "all lengths executed");
 }
 
 include!("cells_gen.rs");
